@@ -19,7 +19,7 @@ TL_TO_ANN = ["to_annotation"]
 PURE_OPS = ["co_iter", "mul", "to_rttm", "to_lab", "eq", "ne", "chart", "argmax", "itertracks", "labels", "contains",
             "discretize", "tl_co_iter", "tl_covers", "tl_eq", "tl_to_uem", "tl_overlapping", "tl_str",
             "absent_label", "absent_segment", "internal_views", "ann_all_reads", "tl_all_reads", "mutator_args",
-            "one_label_duration", "one_label_timeline", "one_label_support", "one_label_get_labels"]
+            "one_label_duration", "one_label_timeline", "one_label_support", "one_label_get_labels", "plain_results"]
 RULE = ("for every deriving operation of Annotation and Timeline (copy, crop x3, extrude x3, support, subset, "
         "rename_labels copy/generated, rename_tracks, relabel_tracks, update(copy=True), get_timeline, label_timeline, "
         "label_support, get_overlap, to_annotation, Timeline copy/crop/extrude/support/gaps/segmentation/union) in each "
@@ -309,6 +309,28 @@ def run(case):
                     res[s_, "zz_m"] = "zz_l"
                     del res[s_, sorted(res.get_tracks(s_), key=str)[0]]
                 assert _snap(tb, other) == b_arg, "editing the result of Annotation.update changed the argument"
+        elif op == "plain_results":
+            # queries that answer with a plain list / set / dict: the caller may edit the answer freely; asking again
+            # gives the same answer (and the source's own views are compared before / after below)
+            segs_ = list(a.itersegments())
+            S0 = segs_[0] if segs_ else Segment(tb.t(0), tb.t(1))
+            queries = [("labels", lambda: a.labels()), ("chart", lambda: a.chart()), ("get_tracks", lambda: a.get_tracks(S0)),
+                       ("get_labels", lambda: a.get_labels(S0)), ("get_labels(unique=False)", lambda: a.get_labels(S0, unique=False)),
+                       ("overlapping", lambda: t.overlapping(S0.start)), ("itertracks", lambda: list(a.itertracks(yield_label=True))),
+                       ("itersegments", lambda: list(a.itersegments())), ("list(timeline)", lambda: list(t)),
+                       ("other.labels", lambda: other.labels())]
+            for what, q in queries * 2:
+                r = q()
+                if isinstance(r, list):
+                    keep = list(r)
+                    r.append("zz_junk"); r.reverse(); del r[-1:]; r.insert(0, None)
+                elif isinstance(r, (set, dict)):
+                    keep = type(r)(r)
+                    r.clear()
+                    (r.add("zz_junk") if isinstance(r, set) else r.update(zz_junk=1))
+                else:
+                    continue
+                assert q() == keep, "editing the %s() answer changed what %s() answers next" % (what, what)
         elif op == "absent_label":
             # every query that takes a label, asked about a label the annotation does not carry
             for lab in ("zz_absent", 12345, ""):
